@@ -357,6 +357,15 @@ Definition call_leaky (o : fobj) (m : msg) : qstr * fobj :=
   | _ => let st := run_oob m (otoks o) ([], opending o) in (fst st, {| otoks := otoks o; opending := snd st |})
   end.
 
+(* what a %{time f} token would be if it KEPT the last rendered text for as long as some key of the message
+   (its clock second, say) is unchanged - state carried by the token from one format() call to the next.
+   Kept only to show that the per-message time theorems are not vacuous (seeded/C12-ind-r5-3). *)
+Definition time_cached_call (key : msg -> N) (f : qstr) (st : option (N * qstr)) (m : msg) : qstr * option (N * qstr) :=
+  match st with
+  | Some (k, v) => if k =? key m then (v, st) else (mtime m f, Some (key m, mtime m f))
+  | None => (mtime m f, Some (key m, mtime m f))
+  end.
+
 (* ---- the documented reading, token by token ---- *)
 Definition missing_optional (m : msg) (t : token) : bool :=
   match kind t with KAttr n true _ _ => match lookup n (attrs m) with None => true | Some _ => false end | _ => false end.
